@@ -1,8 +1,8 @@
 #include <stdlib.h>
 #include "stubs/alloc_model.h"
 
-size_t g_malloc_calls, g_realloc_calls, g_free_calls, g_last_req, g_live;
-bool g_refused, g_alloc_forbidden;
+struct verif_alloc_ghost g_a;
+bool g_alloc_forbidden;
 bool nondet_bool(void);
 
 void *v_malloc(size_t n) {
